@@ -313,11 +313,20 @@ func init() {
 						parse(p, []byte(s), r)
 					}
 				}
+				// a few rules for the derived variants below (all rules for the plain fills)
+				few := []int{0, p.rules - 1}
+				if p.rules > 2 {
+					few = append(few, 2, 6)
+				}
 				for _, n := range []int{0, 1, lim - 1, lim, lim + 1, lim + 2, big, big + 1} {
 					if n < 0 {
 						continue
 					}
-					for _, fill := range []string{"9", "M", "a", "\xff", "é", "1.", "\u00a0"} {
+					fills := []string{"9", "M", "a", "\xff", "é", "1.", "\u00a0"}
+					if n > 600 && !d.Thorough() {
+						fills = []string{"9", "1.", "\xff"} // very long inputs: fewer fill patterns in the quick tier
+					}
+					for _, fill := range fills {
 						in := []byte(strings.Repeat(fill, n/len(fill)+1))[:n]
 						for r := 0; r < p.rules; r++ {
 							parse(p, in, r)
@@ -330,7 +339,7 @@ func init() {
 						}
 						if n >= 2 { // a well-formed JSON string of exactly n bytes
 							q := append(append([]byte{'"'}, in[:n-2]...), '"')
-							for r := 0; r < p.rules; r++ {
+							for _, r := range few {
 								parse(p, q, r)
 							}
 						}
@@ -338,7 +347,7 @@ func init() {
 						for _, pre := range []string{"v", "urn:uuid:", " ", "\""} {
 							if n > len(pre) {
 								x := append([]byte(pre), in[:n-len(pre)]...)
-								for r := 0; r < p.rules; r++ {
+								for _, r := range few {
 									parse(p, x, r)
 								}
 							}
